@@ -179,6 +179,8 @@ class SimRunner:
         n = self.sim.call_counter[(name, es.client_id)]
         self.sim.call_counter[(name, es.client_id)] += 1
         fault = self.sim.fault_plan.get(("request", name, es.client_id, n))
+        if fault:
+            self.sim.fault_time = self.sim.clock if self.sim.fault_time is None else self.sim.fault_time
         if fault == "runner-raises":
             raise RuntimeError("runner fault (injected)")
         svc = self.sim.service_time(name, es.client_id, n)
@@ -212,6 +214,7 @@ def make_param_source_class(sim):
             n = getattr(self, "_n", 0)
             self._n = n + 1
             if SIM.fault_plan.get(("params", self._p["task"], getattr(self, "_idx", 0), n)):
+                SIM.fault_time = SIM.clock if SIM.fault_time is None else SIM.fault_time
                 raise RuntimeError("parameter source fault (injected)")
             return dict(self._p)
 
@@ -345,6 +348,13 @@ def make_config(scenario):
     cfg.add(A, "driver", "profiling", False)
     cfg.add(A, "driver", "assertions", False)
     cfg.add(A, "reporting", "datastore.type", "in-memory")
+    cfg.add(A, "race", "pipeline", "benchmark-only")
+    cfg.add(A, "mechanic", "car.params", {})
+    cfg.add(A, "mechanic", "plugin.params", {})
+    cfg.add(A, "mechanic", "distribution.version", "8.0.0")
+    cfg.add(A, "benchmarks", "local.dataset.cache", "/nonexistent-sim-cache")
+    if scenario.get("root_dir"):
+        cfg.add(config.Scope.applicationOverride, "node", "root.dir", scenario["root_dir"])
     if "queue_size" in scenario:
         cfg.add(A, "reporting", "sample.queue.size", scenario["queue_size"])
     if "downsample" in scenario:
@@ -403,6 +413,81 @@ class RaceControlStub:
             self.sim.note("rc-added", sids=self.sim.sids_of_docs(self.sim.rc_store.docs[before:]))
 
 
+class StartSenderStub:
+    """the caller of racecontrol.race(): `actor_system.ask(benchmark_actor, Setup(...))` — records every reply"""
+
+    def __init__(self, sim):
+        self.inbox = []
+        self.times = []
+        self.sim = sim
+
+    def receiveMessage(self, msg, sender):
+        self.inbox.append(msg)
+        self.times.append(self.sim.clock)
+
+
+class ImmediatePool:
+    """TaskExecutionActor.pool: runs the track-preparation task at submit time and returns a finished future"""
+
+    def submit(self, fn, **params):
+        f = SimFuture()
+        try:
+            fn(**params)
+        except BaseException as e:  # noqa
+            f._exc = e
+        f._done = True
+        return f
+
+    def shutdown(self, *a, **k):
+        pass
+
+
+def make_sim_mechanic():
+    import thespian.actors as ta
+    from esrally.mechanic import mechanic
+
+    class SimMechanic(ta.ActorTypeDispatcher):
+        """stands for MechanicActor (C12 covers the real one): acknowledges start / stop"""
+
+        def receiveMsg_StartEngine(self, msg, sender):
+            self.send(sender, mechanic.EngineStarted("sim-team-revision"))
+
+        def receiveMsg_StopEngine(self, msg, sender):
+            self.send(sender, mechanic.EngineStopped())
+
+        def receiveMsg_ResetRelativeTime(self, msg, sender):
+            pass
+
+        def receiveUnrecognizedMessage(self, msg, sender):
+            pass
+
+    return SimMechanic
+
+
+class SimProcessor:
+    def __init__(self, sim):
+        self.sim = sim
+
+    def on_prepare_track(self, track, data_root_dir):
+        out = []
+        for k in range(self.sim.scenario.get("prep_tasks", 2)):
+            out.append((self._task, {"k": k}))
+        return out
+
+    def _task(self, k):
+        if self.sim.fault_plan.get(("prep", k)):
+            self.sim.fault_time = self.sim.clock if self.sim.fault_time is None else self.sim.fault_time
+            raise RuntimeError(f"track preparation task {k} failed (injected)")
+
+
+class SimProcessorRegistry:
+    def __init__(self, cfg):
+        self.processors = [SimProcessor(SIM)]
+
+    def register_track_processor(self, p):
+        pass
+
+
 class Sim:
     def __init__(self, scenario, seed=0, policy=None):
         global SIM
@@ -436,19 +521,74 @@ class Sim:
         self.track = make_track(scenario)
         runner.register_runner("sim", SimRunner(self), async_runner=True)
         rparams.register_param_source_for_name("sim-source", make_param_source_class(self))
-        # race control endpoint
-        self.rc = RaceControlStub(self)
-        self.actors["rc"] = ActorShell("rc", self.rc, None)
-        self.rc_addr = ActorAddress("rc")
-        self.driver_shell = self.create(driver.DriverActor, parent="rc", key="driver")
+        self.full = bool(scenario.get("full_race"))
+        self.timed = sorted(scenario.get("timed", []), key=lambda x: x[0])  # [time, action, arg]
+        self.summaries = []
+        self.results_stored = []
+        if not self.full:
+            # race control endpoint (stub): enough for C01 / C07
+            self.rc = RaceControlStub(self)
+            self.actors["rc"] = ActorShell("rc", self.rc, None)
+            self.rc_addr = ActorAddress("rc")
+            self.driver_shell = self.create(driver.DriverActor, parent="rc", key="driver")
+        else:
+            self._setup_full_race()
         self.events = 0
         self.closed = False
+        self.fault_time = None
+        self.store_fault_armed = False
         self.sid_counter = 0
         self.sample_key = {}
         self.fed_buffer = None
         from esrally import metrics as _metrics
 
         self.rc_store = _metrics.InMemoryMetricsStore(self.cfg)
+
+    def _setup_full_race(self):
+        """real BenchmarkActor + BenchmarkCoordinator + DriverActor + TrackPreparationActor + TaskExecutionActor + Worker"""
+        from esrally import racecontrol, metrics, reporter
+        from esrally.driver import driver
+
+        sim = self
+        racecontrol.mechanic.MechanicActor = make_sim_mechanic()
+        driver.TrackProcessorRegistry = SimProcessorRegistry
+        driver.load_track_plugins = lambda *a, **k: None
+        driver.track.load_track_plugins = lambda *a, **k: None
+
+        def fake_setup(coord, sources=False):
+            coord.current_track = sim.track
+            coord.current_challenge = sim.track.find_challenge_or_default("default")
+            coord.track_revision = None
+            coord.race = metrics.create_race(coord.cfg, coord.current_track, coord.current_challenge, None)
+            coord.metrics_store = metrics.metrics_store(coord.cfg, track=coord.race.track_name, challenge=coord.race.challenge_name, read_only=False)
+            coord.race_store = metrics.race_store(coord.cfg)
+            n = [0]
+            orig_bulk_add = coord.metrics_store.bulk_add
+
+            def bulk_add(memento):
+                n[0] += 1
+                if sim.fault_plan.get(("rc-store", n[0])):
+                    sim.fault_time = sim.clock if sim.fault_time is None else sim.fault_time
+                    raise RuntimeError("race control metrics store failed (injected)")
+                return orig_bulk_add(memento)
+
+            coord.metrics_store.bulk_add = bulk_add
+            orig_store_race = coord.race_store.store_race
+
+            def store_race(race):
+                sim.results_stored.append(bool(race.results))
+                return orig_store_race(race)
+
+            coord.race_store.store_race = store_race
+            sim.coordinator = coord
+
+        racecontrol.BenchmarkCoordinator.setup = fake_setup
+        racecontrol.reporter.summarize = lambda results, cfg: sim.summaries.append(True)
+        racecontrol.console.info = lambda *a, **k: None
+        self.ss = StartSenderStub(self)
+        self.actors["ss"] = ActorShell("ss", self.ss, None)
+        self.rc_shell = self.create(racecontrol.BenchmarkActor, parent="ss", key="rc")
+        self.rc = self.ss  # for code that looks at `.inbox`
 
     # ---- infrastructure used by Ref -------------------------------------------------------
     def create(self, cls, parent, requirements=None, key=None):
@@ -458,6 +598,10 @@ class Sim:
             if cls is driver.Worker:
                 key = f"w{self.nworkers}"
                 self.nworkers += 1
+            elif cls is driver.DriverActor:
+                key = "driver"
+            elif cls.__name__ == "SimMechanic":
+                key = "mechanic"
             else:
                 key = f"{cls.__name__}{len(self.actors)}"
         inst = cls()
@@ -467,6 +611,8 @@ class Sim:
         self.actors[key] = shell
         if parent in self.actors:
             self.actors[parent].children.append(key)
+        if cls is driver.TaskExecutionActor:
+            inst.pool = ImmediatePool()
         if cls is driver.Worker:
             inst.pool = SimPool(self, key)
             offs = self.scenario.get("clock_offsets", [])
@@ -670,8 +816,53 @@ class Sim:
         nxt = [t for t in nxt if t > self.clock + 1e-12]
         return evs, forced, (min(nxt) if nxt else None)
 
+    def _timed_actions(self):
+        from esrally import actor as ractor
+
+        while self.timed and self.timed[0][0] <= self.clock + 1e-12:
+            t, action, arg = self.timed.pop(0)
+            self.out = []
+            if action == "cancel":
+                # race(): KeyboardInterrupt -> actor_system.ask(benchmark_actor, BenchmarkCancelled())
+                self.post("ss", "rc", ractor.BenchmarkCancelled())
+                self.record({"ev": "inject", "what": "user-cancel"})
+            elif action == "kill-worker":
+                key = f"w{arg}"
+                if key in self.actors and self.actors[key].alive:
+                    self.kill(key)
+                    self.record({"ev": "inject", "what": "kill " + key})
+                else:
+                    continue
+            self.fault_time = self.clock if self.fault_time is None else self.fault_time
+
+    def _arm_store_fault(self):
+        """driver-side metrics store failing while samples are stored (inside post_process_samples)"""
+        if self.store_fault_armed or not any(k[0] == "store" for k in self.fault_plan):
+            return
+        d = getattr(self.actors.get("driver") and self.actors["driver"].inst, "driver", None)
+        if d is None or d.metrics_store is None:
+            return
+        self.store_fault_armed = True
+        n = [0]
+        orig = d.metrics_store.put_value_cluster_level
+        sim = self
+
+        def put(*a, **k):
+            n[0] += 1
+            if sim.fault_plan.get(("store", n[0])):
+                sim.fault_time = sim.clock if sim.fault_time is None else sim.fault_time
+                raise RuntimeError("metrics store failed while storing samples (injected)")
+            return orig(*a, **k)
+
+        d.metrics_store.put_value_cluster_level = put
+
     def step(self):
+        self._timed_actions()
+        self._arm_store_fault()
         evs, forced, tnext = self.enabled()
+        if self.timed:
+            tnext = self.timed[0][0] if tnext is None else min(tnext, self.timed[0][0])
+            tnext = max(tnext, self.clock)
         # messages and executor work are never postponed across a clock tick (bounded, small delays are explored through the
         # order in which they are picked); wake-ups may be postponed up to max_wakeup_delay
         urgent = [e for e in evs if e[0] != "wakeup"] + forced
@@ -716,6 +907,16 @@ class Sim:
         from esrally.driver import driver
 
         self.out = []
+        if self.full:
+            from esrally import racecontrol
+
+            if not hasattr(driver.DriverActor, "_orig_prepare_track"):
+                driver.DriverActor._orig_prepare_track = driver.DriverActor.prepare_track
+            driver.DriverActor.prepare_track = driver.DriverActor._orig_prepare_track
+            self.post("ss", "rc", racecontrol.Setup(self.cfg, external=True))
+            return
+        if not hasattr(driver.DriverActor, "_orig_prepare_track"):
+            driver.DriverActor._orig_prepare_track = driver.DriverActor.prepare_track
         if skip_track_preparation:
             driver.DriverActor.prepare_track = lambda a, hosts, cfg, track: a.send(a.benchmark_actor, driver.PreparationComplete("oss", "8.0.0", "abc"))
         self.post("rc", "driver", driver.PrepareBenchmark(self.cfg, self.track))
